@@ -11,6 +11,7 @@ open Flamego.Writer
 def parseOp : List String → Option Op
   | ["W", "wh", c] => some (.writeHeader (natOf c))
   | ["W", "w", l, f] => some (.write (natOf l) (natOf f))
+  | ["W", "we", l, f] => some (.write (natOf l) (natOf f))   -- the underlying writer also returned an error: bytes forwarded are counted all the same
   | ["W", "fl"] => some .flush
   | ["W", "bf", h] => some (.before (natOf h))
   | ["W", "st"] => some .status
